@@ -2286,9 +2286,11 @@ class Deb822DuplicateFieldsParagraphElement(Deb822ParagraphElement):
         """Re-order the given field so it is "first" in the paragraph"""
         nodes, nodes_being_relocated = self._nodes_being_relocated(field)
         assert len(nodes_being_relocated) == 1 or len(nodes) == len(nodes_being_relocated)
+        self._ensure_final_newline()
 
         kvpair_order = self._kvpair_order
-        for node in nodes_being_relocated:
+        # Use "reversed" to preserve the relative order of the nodes assuming a bulk reorder
+        for node in reversed(nodes_being_relocated):
             if kvpair_order.head_node is node:
                 # Special case for relocating a single node that happens to be the first.
                 continue
